@@ -213,7 +213,7 @@ class CatalogEntryUsage:
         while not _block.isLast():
             _blockId = _block.status
             _block = bat[_blockId]
-            if _block.isFree() or _block.isReserved():
+            if _block.isFree() or _block.isReserved() or _block in blocks:
                 # something is fishy
                 break
             blocks.append(_block)
